@@ -37,3 +37,12 @@ _s = _iu.spec_from_file_location("spec_C05", _os.path.join(_os.path.dirname(__fi
 for _h in _m5.HARNESSES:
     if _h["name"] in ['xml_roundtrip_distances']: _h2 = dict(_h); _h2["name"] = "C05_" + _h["name"]; HARNESSES.append(_h2)
 OUTSIDE = ["hwloc__groups_by_distances (floating-point accuracies, Group insertion)", "PU/NUMA os_index based lookup during refresh (needs a level array; the gp_index path is encoded)", "matrices larger than 4x4", "XML / shmem persistence (C05, C19)"]
+
+# the restrict side of "after restrict every returned structure holds the surviving objects": the invalidation request of hwloc_topology_restrict
+import importlib.util as _iu13, os as _os13
+_s8 = _iu13.spec_from_file_location("spec_C08", _os13.path.join(_os13.path.dirname(__file__), "C08.py")); _m8 = _iu13.module_from_spec(_s8); _s8.loader.exec_module(_m8)
+_b8 = [h for h in _m8.HARNESSES if h["name"] == "restrict_enum_s1_00"][0]
+_h = dict(_b8); _h.update(name="restrict_invalidates", entry="h_restrict_flags", defines={"SEED": 1}, tiers={"quick": {}, "thorough": {}}, cost=30,
+          encoded=["hwloc_topology_restrict (post-processing: invalidation of the distances' cached objects)"],
+          bounds="seed S1 restricted to Package0, the topology flags NO_DISTANCES / NO_MEMATTRS / NO_CPUKINDS symbolic (8 combinations); asserted: hwloc_internal_distances_invalidate_cached_objs is called (the refresh that follows is decided by refresh_*)")
+HARNESSES.append(_h)
